@@ -5,7 +5,7 @@ import "verif/harness/idlmut"
 // corpusEntry is a minimised trigger: a tiny tree, the rule it breaks and where.
 type corpusEntry struct {
 	name     string
-	kind     int // 1 = parses, 2 = no AST / command line
+	kind     int // 0 = valid near miss (must be accepted), 1 = parses, 2 = no AST / command line
 	rule     int
 	strict   bool
 	files    map[string]string
@@ -78,6 +78,39 @@ func corpus() []corpusEntry {
 		{name: "missing include file", kind: 2, rule: idlmut.MissingInclude, site: "include",
 			files: one("include \"nosuch_file.thrift\"\nstruct S { 1: i32 a }\n")},
 	}
+	// near misses: valid trees at the boundary of a rule; both the model and the binary
+	// must ACCEPT them (an over-eager check shows up as a correspondence break)
+	near := []struct{ name, text string }{
+		{"enum values at the int32 bounds", "enum E { LO = -2147483648, HI = 2147483647, Z = 0 }\n"},
+		{"union with exactly one default", "union U { 1: i32 a = 1, 2: i32 b, 3: string c }\n"},
+		{"the same id in the arguments and in the throws of one function, and in two functions",
+			"exception E1 {}\nservice S { void f(1: i32 a) throws (1: E1 e), i32 g(1: i32 a, 2: i32 b) throws (1: E1 e) }\n"},
+		{"throws id 0 on a void function", "exception E1 {}\nservice S { void f() throws (0: E1 e) }\n"},
+		{"the same field name and id in different structs, the same value name in different enums",
+			"struct A { 1: i32 x }\nstruct B { 1: i32 x }\nexception X { 1: i32 x }\nenum E1 { V = 1 }\nenum E2 { V = 1 }\n"},
+		{"oneway void function without throws, void function with throws", "exception E1 {}\nservice S { oneway void f(1: i32 a), void g() throws (1: E1 e) }\n"},
+		{"typedef chain of length 3 written backwards, enum value through it by number",
+			"typedef T2 T3\ntypedef T1 T2\ntypedef E T1\nenum E { A = 1 }\nstruct S { 1: T3 t = 1, 2: list<T3> l }\n"},
+		{"every scalar with every written form it can hold",
+			"const bool b1 = 1\nconst bool b2 = true\nconst i32 i1 = 5\nconst i32 i2 = true\nconst double d1 = 5\nconst double d2 = 1.5\nconst string s1 = \"x\"\nconst binary s2 = \"y\"\nconst i32 i3 = i1\nconst string s3 = s1\n"},
+		{"struct literal naming every field, empty struct literal, list of literals",
+			"struct T { 1: i32 a, 2: string b }\nconst T t1 = {\"a\": 1, \"b\": \"x\"}\nconst T t2 = {}\nconst list<T> t3 = [{\"a\": 2}]\nstruct U { 1: T t = {\"a\": 3} }\n"},
+		{"a service extending a service of the same file", "service Base { void f() }\nservice S extends Base { void g() }\n"},
+	}
+	for _, n := range near {
+		c = append(c, corpusEntry{name: "near miss: " + n.name, kind: 0, site: "near-miss", files: one(n.text)})
+	}
+	c = append(c,
+		corpusEntry{name: "near miss: include diamond, equal definition names in different files, qualified base service and constant", kind: 0, site: "near-miss",
+			files: map[string]string{
+				"main.thrift": "include \"l.thrift\"\ninclude \"r.thrift\"\nstruct S { 1: l.S a, 2: r.S b, 3: i32 c = l.K }\nservice Svc extends l.Base { void g() }\n",
+				"l.thrift":    "include \"b.thrift\"\nstruct S { 1: b.B x }\nconst i32 K = 1\nservice Base { void f() }\n",
+				"r.thrift":    "include \"b.thrift\"\nstruct S { 1: b.B x }\nconst i32 K = 2\n",
+				"b.thrift":    "struct B { 1: i32 a }\n"}},
+		corpusEntry{name: "near miss: well-kinded constants in an unused include", kind: 0, site: "near-miss",
+			files: map[string]string{
+				"main.thrift": "include \"inc.thrift\"\nstruct S { 1: i32 t }\n",
+				"inc.thrift":  "const i32 x = 1\nstruct T { 1: i32 a }\nconst T y = {\"a\": 1}\n"}})
 	ok := one("struct S { 1: i32 a }\n")
 	for _, cl := range idlmut.CommandLines() {
 		c = append(c, corpusEntry{name: cl.What, kind: 2, rule: idlmut.BadCommandLine, site: cl.Site, files: ok, args: cl.Args})
